@@ -126,6 +126,10 @@ ALLOCATORS = {
     "ABTI_mem_alloc_desc": 1, "ABTI_mem_alloc_nythread": 1,
     "ABTI_ktable_create": 2,
     "ABTU_hashtable_create": 2,
+    # object constructors (the new object is owned by the caller until it is handed out or freed)
+    # (work units are not listed: a created unit is pushed to its pool by the constructor and belongs to
+    # the scheduler from then on)
+    "ABTI_sched_create_basic": 4, "sched_create": 5, "pool_create": 8, "xstream_create": 5,
 }
 RELEASERS = {"ABTU_free", "ABTI_mem_free_desc", "ABTI_mem_free_thread", "ABTI_ktable_free", "ABTU_hashtable_free",
              "ABTI_mem_free_nythread_mempool_impl"}
